@@ -87,6 +87,7 @@ type interpreter struct {
 	sizes              types.Sizes
 	runtimeErrorString types.Type
 	lastClock          *smt.Term // latest reading of the clock stub
+	fmtDepth           int       // nesting depth of the value currently converted for fmt
 	cfg                *Config
 	solver             *smt.Solver
 
@@ -376,6 +377,7 @@ func (i *interpreter) runPath(fn *ssa.Function, prefix []int) (res *PathResult) 
 	i.symbols, i.symKinds = nil, nil
 	i.symNames = map[string]int{}
 	i.lastClock = nil
+	i.fmtDepth = 0
 	i.steps = 0
 	i.maxSteps = i.cfg.MaxSteps
 	i.threads = nil
